@@ -1478,10 +1478,96 @@ pub struct SenderOracle {
 	pub sender: usize,
 	pub funds_before: u64,
 	pub allow_repeats: bool,
+	/// (channel id, real short channel id) of every channel that existed when the oracle was created
+	scids: Vec<(ChannelId, u64)>,
 }
 impl SenderOracle {
 	pub fn new(w: &World, sender: usize) -> Self {
-		SenderOracle { sender, funds_before: offchain_funds_msat(w, sender).0, allow_repeats: false }
+		let mut scids = Vec::new();
+		for n in w.nodes.iter() {
+			for c in n.cm.list_channels() {
+				if let Some(s) = c.short_channel_id {
+					if !scids.iter().any(|(id, _)| *id == c.channel_id) {
+						scids.push((c.channel_id, s));
+					}
+				}
+			}
+		}
+		SenderOracle { sender, funds_before: offchain_funds_msat(w, sender).0, allow_repeats: false, scids }
+	}
+
+	/// "a failed path reports the channel at which the failure occurred": from the wire record, find the
+	/// hop over which the deepest failure message for this payment's HTLC travelled back. The node at the
+	/// far end of that hop originated the failure (it got none from further down); unless it is the
+	/// payee, the channel at which the payment failed is its outgoing channel, the next hop of the path.
+	fn check_failed_channel(&self, w: &World, hash: &lightning::types::payment::PaymentHash, path: &lightning::routing::router::Path, reported: Option<u64>) -> Result<(), Failure> {
+		let mut hops: Vec<(ChannelId, u64, usize)> = Vec::new();
+		for o in w.obs.iter() {
+			if let Obs::Sent { from, wire: Wire::Add(m), .. } = o {
+				if m.payment_hash == *hash && !hops.iter().any(|(c, i, _)| *c == m.channel_id && *i == m.htlc_id) {
+					hops.push((m.channel_id, m.htlc_id, *from));
+				}
+			}
+		}
+		if hops.is_empty() || hops[0].2 != self.sender || hops.len() > path.hops.len() {
+			return Ok(());
+		}
+		// several HTLCs of one payment over one channel (retries, MPP) make the attribution ambiguous
+		let mut per_chan = std::collections::BTreeSet::new();
+		if !hops.iter().all(|(c, _, _)| per_chan.insert(*c)) {
+			return Ok(());
+		}
+		// the recorded channels must be the path's channels, hop by hop
+		for (i, (cid, _, _)) in hops.iter().enumerate() {
+			match self.scids.iter().find(|(c, _)| c == cid) {
+				Some((_, s)) if *s == path.hops[i].short_channel_id => {},
+				_ => return Ok(()),
+			}
+		}
+		let mut deepest: Option<usize> = None;
+		for o in w.obs.iter() {
+			let (cid, hid) = match o {
+				Obs::Sent { wire: Wire::Fail(f), .. } => (f.channel_id, f.htlc_id),
+				Obs::Sent { wire: Wire::FailMalformed(f), .. } => (f.channel_id, f.htlc_id),
+				_ => continue,
+			};
+			if let Some(idx) = hops.iter().position(|(c, i, _)| *c == cid && *i == hid) {
+				deepest = Some(deepest.map(|d: usize| d.max(idx)).unwrap_or(idx));
+			}
+		}
+		let d = match deepest {
+			Some(d) => d,
+			None => return Ok(()), // failed locally or on chain: no wire record to compare with
+		};
+		// the sender must have learned of the failure from its peer's message; when it failed the HTLC itself
+		// (first-hop channel closed, restart from an older state) the channel it names is its own
+		let told = w.obs.iter().any(|o| match o {
+			Obs::Delivered { to, wire: Wire::Fail(f), .. } => *to == self.sender && f.channel_id == hops[0].0 && f.htlc_id == hops[0].1,
+			Obs::Delivered { to, wire: Wire::FailMalformed(f), .. } => *to == self.sender && f.channel_id == hops[0].0 && f.htlc_id == hops[0].1,
+			_ => false,
+		});
+		let first_hop_closed = w.obs.iter().any(|o| matches!(o, Obs::Event { node, ev: Event::ChannelClosed { channel_id, .. } } if *node == self.sender && *channel_id == hops[0].0));
+		let restarted = w.obs.iter().any(|o| matches!(o, Obs::Restarted { node, .. } if *node == self.sender));
+		if !told || first_hop_closed || restarted {
+			return Ok(());
+		}
+		if d + 1 == path.hops.len() {
+			// the payee itself failed the payment: there is nothing to avoid, or at most the last channel
+			if reported.is_none() || reported == Some(path.hops[d].short_channel_id) {
+				crate::runner::witness("c03-failed-channel-checked-payee");
+				return Ok(());
+			}
+			return Err(Failure::new("sender-truthful", format!("the payee failed the payment but PaymentPathFailed names channel {:?} (path {:?})", reported, path.hops.iter().map(|h| h.short_channel_id).collect::<Vec<_>>())));
+		}
+		let expect = path.hops[d + 1].short_channel_id;
+		if reported != Some(expect) {
+			return Err(Failure::new(
+				"sender-truthful",
+				format!("the failure originated at hop {} of the path (no failure came back from further down), whose outgoing channel is {}; PaymentPathFailed names {:?}", d + 1, expect, reported),
+			));
+		}
+		crate::runner::witness("c03-failed-channel-checked-intermediate");
+		Ok(())
 	}
 }
 impl Oracle for SenderOracle {
@@ -1502,9 +1588,13 @@ impl Oracle for SenderOracle {
 						_ => return Err(Failure::new("sender-truthful", "PaymentSent although the recipient never released the preimage".to_string())),
 					}
 				},
-				Obs::Event { node, ev: Event::PaymentPathFailed { short_channel_id, payment_hash, payment_failed_permanently, .. } } if *node == self.sender => {
-					let _ = (short_channel_id, payment_hash, payment_failed_permanently);
+				Obs::Event { node, ev: Event::PaymentPathFailed { short_channel_id, payment_hash, payment_failed_permanently, path, .. } } if *node == self.sender => {
+					let _ = payment_failed_permanently;
 					crate::runner::witness("c03-path-failed-seen");
+					self.check_failed_channel(w, payment_hash, path, *short_channel_id)?;
+				},
+				Obs::Api { node, what, ok: true, .. } if *node == self.sender && what == "resend-while-pending" => {
+					return Err(Failure::new("sender-truthful", "a second send with the id of a payment still listed as pending was accepted".to_string()));
 				},
 				_ => {},
 			}
